@@ -108,7 +108,7 @@ def is_helper(db, caller, callee):
     """is `callee` a helper of the code under analysis: a member of the same class (or of the enclosing / a nested class), or a local
     lambda of the calling function - i.e. code a maintainer may have extracted from the function the rule looks at"""
     if callee.get('lambda'):
-        return callee.get('parent_key') == caller.get('key') or callee.get('parent_key') == caller.get('parent_key')
+        return callee.get('parent_key') == caller.get('key') or callee.get('parent_key') == caller.get('parent_key') or (callee.get('encl_key') is not None and callee.get('encl_key') == caller.get('key'))
     a, b = class_of(db, caller), class_of(db, callee)
     if not b and not callee.get('class') and re.match(r'cocls::(detail|details|_details|_detail)::', callee.get('nname') or '') and not callee.get('coroutine'):
         # a small free function of the library's internal namespace (constexpr predicate, one-line accessor): a helper of whoever calls it
@@ -608,7 +608,7 @@ def ret_bool(tr):
         p = p[1:]; neg = not neg
     for it in reversed(tr):
         if it.k == 'branch' and it.get('depth', 0) == 0 and p in (it.get('opath'), it.get('path')):
-            return bool(it.val) != neg
+            return bool(it.val if p == it.get('path') else it.get('oval', it.val)) != neg
     return None
 
 
@@ -742,7 +742,7 @@ def resolve_select(p, before):
         br = next((it for it in reversed(before) if it.k == 'branch' and (it.get('opath') == sp[0] or it.get('path') == sp[0])), None)
         if br is None:
             return p
-        p = sp[1] if br.val else sp[2]
+        p = sp[1] if (br.val if br.get('path') == sp[0] else br.get('oval', br.val)) else sp[2]
     return p
 
 
@@ -775,3 +775,60 @@ def helper_bodies(db, f, depth=3):
                 if c is not None and (c['key'], c.get('inst')) not in seen and is_helper(db, g, c):
                     seen.add((c['key'], c.get('inst'))); out.append(c); work.append((c, d + 1))
     return out
+
+
+def inline_returns(tr, i, expr, maxsteps=4):
+    """rewrite call(NAME) inside an expression by what the helper NAME, expanded earlier on this trace, returned on this path (its
+    parameters are already substituted by the caller's argument paths)"""
+    if not expr:
+        return expr
+    for _ in range(maxsteps):
+        m = re.search(r'call\(([^()]*)\)', expr)
+        done = True
+        for m in re.finditer(r'call\(([^()]*)\)', expr):
+            name = norm(m.group(1))
+            j = next((k for k in range(min(i, len(tr)) - 1, -1, -1) if tr[k].k == 'leave' and norm(tr[k].ev.get('callee') or '') == name), None)
+            if j is None:
+                continue
+            r = next((k for k in range(j - 1, -1, -1) if tr[k].k == 'return' and tr[k].get('depth') == tr[j].get('depth', 0) + 1), None)
+            if r is None or not tr[r].get('path') or tr[r]['path'] == m.group(0):
+                continue
+            expr = expr[:m.start()] + '(' + resolve_select(tr[r]['path'], tr[:r]) + ')' + expr[m.end():]
+            done = False
+            break
+        if done:
+            break
+    return expr
+
+
+def functions_named_by(db, f, p):
+    """the function instances an argument path denotes: fn:<qualified name>, lambda@<key>, or the conversion of a capture-less closure of f"""
+    out = []
+    p = p or ''
+    m = re.search(r'lambda@(\S+?)\)*$', p)
+    if m:
+        out.extend(db.closure_instances(f, m.group(1)))
+    m = re.search(r'fn:(.+?)\)*$', p) if 'fn:' in p else None
+    if m:
+        nm = m.group(1)
+        while nm.count(')') > nm.count('('):
+            nm = nm[:nm.rfind(')')]
+        got = db.fns(norm(nm))
+        if not got:
+            got = [g for g in db.all_instances() if g['nname'] == norm(nm)]
+        out.extend(got)
+    if not out and 'operator cocls::suspend_point' in p:
+        for e in f.events():
+            if e.k == 'call' and 'operator cocls::suspend_point' in (e.get('callee') or '') and (e.get('recv') or '').startswith('lambda@'):
+                out.extend(db.closure_instances(f, e['recv'][7:]))
+    return out
+
+
+def const_subst(db, expr):
+    """replace named integer constants (global:<qualified name>, static constexpr members) by their values"""
+    if not expr or 'global:' not in expr:
+        return expr
+    for k, v in sorted(db.consts.items(), key=lambda kv: -len(kv[0])):
+        if v is not None and k in expr:
+            expr = re.sub(re.escape(k) + r'(?![\w:<])', str(v), expr)
+    return expr
